@@ -6,7 +6,7 @@
 From Coq Require Import List ZArith Bool.
 From Basyx Require Import model.ConstraintsBase gen.Gen_RefChecks gen.Gen_IntRanges gen.Gen_StrConstraints
   model.ConstraintsModel model.ConstraintsSpec proofs.ConstraintsRegexProofs proofs.ConstraintsRefProofs
-  proofs.ConstraintsStrProofs proofs.ConstraintsListProofs.
+  proofs.ConstraintsStrProofs proofs.ConstraintsListProofs proofs.ConstraintsSmallProofs.
 Import ListNotations.
 Local Open Scope Z_scope.
 
@@ -196,3 +196,82 @@ Example C02_list_example :
   /\ etype (run OEntity s0 [Clear; SetSlice None None []; SetGaid (GOk 0); SetList []; SetGaid GNone; SetType false;
                             SetGaid GNone; IAdd [1%nat]]) = true.
 Proof. vm_compute. repeat split; reflexivity. Qed.
+
+(* ===== AdministrativeInformation (AASd-005) ================================================= *)
+Theorem C02_adm_ctor : forall v r,
+  match actor v r with
+  | (Some s, None) => wf_adm s /\ s = mkAdm v r
+  | (None, Some e) => (e = EAASd 5 /\ ~ wf_adm (mkAdm v r)) \/ (e = EValue /\ (~ s_valid v \/ ~ s_valid r))
+  | _ => False
+  end.
+Proof. exact actor_spec. Qed.
+Theorem C02_adm_accept_wf : forall s p s', wf_adm s -> astep s p = (s', None) -> wf_adm s' /\ s' = aplain s p.
+Proof. exact astep_accept_wf. Qed.
+Theorem C02_adm_reject_unchanged : forall s p s' e, wf_adm s -> astep s p = (s', Some e) ->
+  s' = s /\ ((e = EAASd 5 /\ ~ wf_adm (aplain s p)) \/ (e = EValue /\ ~ s_valid (aarg p))).
+Proof. exact astep_reject_unchanged. Qed.
+Theorem C02_adm_history : forall ops s, wf_adm s -> wf_adm (arun s ops).
+Proof. exact arun_wf. Qed.
+(* the history that broke AASd-005 on the pinned tree: version = None while a revision is set *)
+Example C02_adm_example :
+  astep (mkAdm (SOk 0) (SOk 1)) (SetVersion SNone) = (mkAdm (SOk 0) (SOk 1), Some (EAASd 5)) /\
+  arun (mkAdm (SOk 0) (SOk 1)) [SetRevision SNone; SetVersion SNone; SetRevision (SOk 0)] = mkAdm SNone SNone.
+Proof. vm_compute. split; reflexivity. Qed.
+
+(* ===== BasicEventElement: direction / max_interval / last_update ========================== *)
+Theorem C02_bee_ctor : forall d u m,
+  match bctor d u m with
+  | (Some s, None) => wf_bee s /\ s = mkBee d m u
+  | (None, Some e) => e = EValue /\ ~ wf_bee (mkBee d m u)
+  | _ => False
+  end.
+Proof. exact bctor_spec. Qed.
+Theorem C02_bee_accept_wf : forall s p s', wf_bee s -> bstep s p = (s', None) -> wf_bee s' /\ s' = bplain s p.
+Proof. exact bstep_accept_wf. Qed.
+Theorem C02_bee_reject_unchanged : forall s p s' e, wf_bee s -> bstep s p = (s', Some e) ->
+  s' = s /\ e = EValue /\ ~ wf_bee (bplain s p).
+Proof. exact bstep_reject_unchanged. Qed.
+Theorem C02_bee_history : forall ops s, wf_bee s -> wf_bee (brun s ops).
+Proof. exact brun_wf. Qed.
+Example C02_bee_example :
+  brun (mkBee false true UUtc) [SetDirection true; SetMaxInterval false; SetDirection true; SetMaxInterval true;
+                                SetLastUpdate UOther] = mkBee true false UUtc.
+Proof. vm_compute. reflexivity. Qed.
+
+(* ===== category: NameType, AASd-090 (data elements), AASd-100 =============================== *)
+Theorem C02_category_accept_wf : forall k a, set_category k a = None -> wf_category k a.
+Proof. exact category_accept_wf. Qed.
+Theorem C02_category_reject : forall k a e, set_category k a = Some e ->
+  ~ wf_category k a /\
+  ((e = EValue /\ ~ category_is_name a) \/ (e = EAASd 100 /\ a = CEmpty /\ k <> COther) \/
+   (e = EAASd 90 /\ k = CDataElement /\ a <> CNone /\ a <> CAllowed)).
+Proof. exact category_reject. Qed.
+(* AASd-090 as documented has no exemption: the SDK's exemption of File and Blob refutes the
+   full statement (open finding C02:category:File-Blob-exempt); it holds for every other class *)
+Theorem C02_category_text_refuted : exists k a, set_category k a = None /\ ~ wf_category_090_text k a.
+Proof. exact category_text_refuted. Qed.
+Theorem C02_category_text_partial : forall k a, k <> CFileBlob -> set_category k a = None -> wf_category_090_text k a.
+Proof. exact category_text_partial. Qed.
+
+(* ===== language string sets ====================================================================== *)
+Theorem C02_lss_ctor : forall c kvs,
+  match lctor c kvs with
+  | (Some l, None) => wf_lss c l /\ l = kvs
+  | (None, Some e) => e = EValue /\ ~ wf_lss c kvs
+  | _ => False
+  end.
+Proof. exact lctor_spec. Qed.
+(* __setitem__, __delitem__, clear, pop, popitem, setdefault, update: accepted => well-formed
+   (in particular never empty); rejected => unchanged with ValueError or KeyError *)
+Theorem C02_lss_step : forall c l p l' r, wf_lss c l -> lstep c l p = (l', r) ->
+  match r with
+  | None => wf_lss c l'
+  | Some e => l' = l /\ (e = EValue \/ e = EKey)
+  end.
+Proof. exact lstep_spec. Qed.
+Theorem C02_lss_history : forall c ops l, wf_lss c l -> wf_lss c (lrun c l ops).
+Proof. exact lrun_wf. Qed.
+Example C02_lss_example :
+  lrun true [(0, true)]%nat [LDel 0; LClear; LPopItem; LSet 1 true; LPop 0; LUpdate [(2, true); (4, true)]; LSet 2 false]%nat
+  = [(1, true)]%nat.
+Proof. vm_compute. reflexivity. Qed.
